@@ -467,6 +467,7 @@ type vhSM struct {
 	laterEntrancePHs bool // entrance responses after the first of a life may carry headers too
 	strictPanics     bool // a panic inside the state machine is a violation (C09) instead of the end of the path
 	gen              *tmconsensus.Genesis // genesis handed to the state machine (nil: the kit's own)
+	stepBefore       tsi.Step             // step the state machine was in when the current event arrived (0: start-up)
 
 	// ghost
 	life      int // process life (restarts)
@@ -778,6 +779,7 @@ func (e *vhSM) released() int {
 // did not come up (or panicked: crash freedom is C09).
 func (e *vhSM) start() bool {
 	e.evKind = -1
+	e.stepBefore = 0
 	ok := false
 	if e.panics("SM:start-up-panics", func() {
 		rlc, up := e.m.initializeRLC(e.ctx)
@@ -905,6 +907,7 @@ func (e *vhSM) step(kinds []int) bool {
 
 func (e *vhSM) deliver(k int) bool {
 	e.evKind = k
+	e.stepBefore = e.rlc.S
 	e.evTimerKind = -1
 	rd := e.round()
 	fromCatchup := e.rlc.IsReplaying()
